@@ -89,6 +89,21 @@ func recordFuncAnchor(rel, name string, fn *ssa.Function) {
 		return
 	}
 	anchorMu.Lock()
+	_, done := anchorRecord["pkgfuncs|"+rel]
+	anchorMu.Unlock()
+	if !done && curProgram != nil {
+		var names []string
+		for _, f := range curProgram.ModuleFuncs(rel) {
+			if f.Parent() == nil && f.Synthetic == "" {
+				names = append(names, strings.TrimPrefix(actualFuncName(f), rel+"."))
+			}
+		}
+		sort.Strings(names)
+		anchorMu.Lock()
+		anchorRecord["pkgfuncs|"+rel] = anchorRec{Fields: names}
+		anchorMu.Unlock()
+	}
+	anchorMu.Lock()
 	defer anchorMu.Unlock()
 	anchorRecord["func|"+rel+"|"+name] = anchorRec{Recv: recvString(fn), Sig: sigString(fn.Signature), Callees: calleeSet(fn)}
 }
@@ -175,6 +190,12 @@ func (p *Program) reidentifyFunc(rel, name string) *ssa.Function {
 			}
 		}
 	}
+	// a function that already existed under its present name in the reference tree is itself,
+	// not the renamed anchor (a sibling with the same signature must not be mistaken for it)
+	existed := map[string]bool{}
+	for _, n := range tab["pkgfuncs|"+rel].Fields {
+		existed[n] = true
+	}
 	type cand struct {
 		fn    *ssa.Function
 		score float64
@@ -182,6 +203,9 @@ func (p *Program) reidentifyFunc(rel, name string) *ssa.Function {
 	var cands []cand
 	for _, fn := range p.ModuleFuncs(rel) {
 		if fn.Pkg != sp || fn.Parent() != nil || fn.Synthetic != "" || taken[fn] {
+			continue
+		}
+		if existed[strings.TrimPrefix(actualFuncName(fn), rel+".")] {
 			continue
 		}
 		if recvString(fn) != rec.Recv || sigString(fn.Signature) != rec.Sig {
